@@ -307,6 +307,38 @@ def r12_4(ctx, rc):
                                      'the created-directory set written to '
                                      'the cache does not include ' + what,
                                      prog.loc(S, call), key=key)
+                # a cache-file directory is left out only when it is already
+                # in the set
+                sgs = ctx.E.super(S, lambda g0: False)
+                argname = call.args[0].id if isinstance(
+                    call.args[0], ast.Name) else None
+                apps = [x for x in sgs.nodes if x.kind == 'leaf' and
+                        x.call is not None and isinstance(
+                            x.call.func, ast.Attribute) and
+                        x.call.func.attr in ('append', 'add') and
+                        isinstance(x.call.func.value, ast.Name) and
+                        x.call.func.value.id == argname]
+                for ap in apps:
+                    odd = []
+                    for pol, atom, fn_, cn_ in Q.control_facts(sgs, ap.id):
+                        good = isinstance(atom, ast.Compare) and len(
+                            atom.ops) == 1 and isinstance(
+                                atom.ops[0], ast.In) and pol == 'F'
+                        if not good:
+                            odd.append('%s is %s' % (
+                                ast.unparse(atom)[:50], pol))
+                    key = 'cache-file directories are added unless present'
+                    if odd:
+                        rc.violation(
+                            'created-dirs-condition | ' + S.qualname,
+                            'a directory made for the cache file is added '
+                            'to the persisted set only when %s; the only '
+                            'admissible reason to skip it is that it is '
+                            'already in the set (clean would leave it '
+                            'behind)' % '; '.join(odd),
+                            ap.where(), key=key)
+                    else:
+                        rc.ok({'append': 'unless already present'}, key=key)
                 roles = ctx.H.expr_roles(call.func.value, S, cn)
                 key = 'created directories are added to the new cache'
                 if roles == {'new'}:
